@@ -2175,6 +2175,10 @@ func (t *tScreen) engage() error {
 		t.TPuts(t.ti.TParm(t.setTitle, t.title))
 	}
 
+	// input pending when the screen was disengaged is gone, and so is
+	// an ESC held back to modify the key after it
+	t.escaped = false
+
 	t.wg.Add(2)
 	go t.inputLoop(stopQ)
 	go t.mainLoop(stopQ)
